@@ -859,6 +859,8 @@ def gen_fragment(repo, d, body, report):
     body_rewrites(src, a0, b1 + 1, edits, parse_subst(d.get("subst", "")), stats, {})
     rewrite_loop_values(src, a0, b1 + 1, edits, stats, {k: v for k, v in d.items() if k.startswith("__brk")})
     loops = src.loops_in(a0, b1 + 1)
+    if "loops" in d and len([L for L in loops if not any(M["body_open"] < L["body_open"] and L["body_close"] < M["body_close"] for M in loops)]) != int(d["loops"]):
+        raise LostAnchor(f"fragment {d['name']}: expected {d['loops']} top-level loop(s) in the range, found a different structure")
     for sub in subs:
         text = "\n".join(sub["text"]).rstrip()
         if sub["kind"] == "loop":
@@ -957,7 +959,26 @@ def generate(template_path, repo, out_path, canary=False):
         if tpl2 == tpl:
             break
         tpl = tpl2
-    report = dict(unit=os.path.basename(template_path), items=[], trusted=[])
+    report = dict(unit=os.path.basename(template_path), items=[], trusted=[], alternatives={})
+    # ---- alternatives: directives carrying `alt=<name>` describe ONE of several code structures the contract is written for
+    #      (e.g. two separate loops / one merged loop).  An alternative is used iff all of its directives find their anchors;
+    #      at least one alternative of a unit must apply, otherwise the anchors are lost (exit 2).
+    gens = dict(fn=gen_fn, type=gen_type, const=gen_const, fragment=gen_fragment)
+    alt_ok = {}
+    for m in DIRECTIVE.finditer(tpl):
+        header, _, body = m.group(2).partition("\n")
+        d = kv(shlex.split(header))
+        if "alt" in d:
+            try:
+                gens[m.group(1)](repo, dict(d), body, dict(items=[], trusted=[]))
+                alt_ok.setdefault(d["alt"], True)
+            except LostAnchor as e:
+                alt_ok[d["alt"]] = False
+                report["alternatives"].setdefault(d["alt"], []).append(str(e))
+    if alt_ok and not any(alt_ok.values()):
+        raise LostAnchor("no alternative structure of this unit matches: " + json.dumps(report["alternatives"]))
+    for k, v in alt_ok.items():
+        report["alternatives"][k] = "used" if v else dict(skipped=report["alternatives"].get(k))
     out = []
     linemap = []  # (gen_off_start, gen_off_end, src_file, src_off)
     pos = 0
@@ -972,6 +993,12 @@ def generate(template_path, repo, out_path, canary=False):
         d = kv(shlex.split(header))
         if canary:
             d["__canary"] = "1"
+        if "alt" in d and not alt_ok[d["alt"]]:
+            note = f"// (alternative `{d['alt']}` does not match the current source structure: skipped)\n"
+            out.append(note)
+            glen += len(note)
+            pos = m.end()
+            continue
         if kind == "fn":
             text, segs, src = gen_fn(repo, d, body, report)
         elif kind == "type":
